@@ -17,7 +17,83 @@ func isPoolMethod(c *ssa.CallCommon, name string) bool {
 // escapingMethods of pooled objects that hand out internal memory.
 var aliasingMethods = map[string]bool{"Bytes": true, "AvailableBuffer": true, "Next": false, "UnreadByte": false}
 
+// poolGetters: unexported helpers that take an object from a pool, reset it on
+// every path and return it (getBuffer(), getScanner(r)); a call of one is a Get
+// whose object arrives already reset.
+func poolGetters(P *Prog, fns []*ssa.Function) map[*ssa.Function]bool {
+	out := map[*ssa.Function]bool{}
+	var pkg *ssa.Package
+	for _, fn := range fns {
+		if fn != nil {
+			pkg = origin(fn).Pkg
+		}
+	}
+	if pkg == nil {
+		return out
+	}
+	for _, mem := range pkg.Members {
+		g, ok := mem.(*ssa.Function)
+		if !ok || g.Blocks == nil || g.Object() == nil || g.Object().Exported() {
+			continue
+		}
+		var obj ssa.Value
+		allInstrs(g, func(in ssa.Instruction) {
+			if get, ok := in.(*ssa.Call); ok && isPoolMethod(&get.Call, "Get") {
+				for _, r := range referrersOf(get) {
+					if ta, ok := r.(*ssa.TypeAssert); ok && !ta.CommaOk {
+						obj = ta
+					}
+				}
+			}
+		})
+		if obj == nil {
+			continue
+		}
+		okUses := true
+		var resets []ssa.Instruction
+		for _, r := range referrersOf(obj) {
+			switch x := r.(type) {
+			case *ssa.Return, *ssa.DebugRef:
+			case ssa.CallInstruction:
+				cal := x.Common().StaticCallee()
+				if cal != nil && cal.Name() == "Reset" && len(x.Common().Args) > 0 && x.Common().Args[0] == obj {
+					resets = append(resets, r)
+				} else {
+					okUses = false
+				}
+			default:
+				okUses = false
+			}
+		}
+		if !okUses || len(resets) == 0 {
+			continue
+		}
+		allRet := true
+		allInstrs(g, func(in ssa.Instruction) {
+			if ret, ok := in.(*ssa.Return); ok {
+				if len(ret.Results) != 1 || ret.Results[0] != obj {
+					allRet = false
+				}
+			}
+		})
+		isReset := func(in ssa.Instruction) bool {
+			for _, r := range resets {
+				if r == in {
+					return true
+				}
+			}
+			return false
+		}
+		missing, _ := reachesWithout(P, firstInstr(g), true, isReturn, isReset)
+		if allRet && !missing {
+			out[g] = true
+		}
+	}
+	return out
+}
+
 func rulePoolReset(c *Ctx, fns []*ssa.Function) {
+	getters := poolGetters(c.P, fns)
 	for _, fn := range fns {
 		if fn == nil {
 			c.undecided("ANCHOR", "pool user", 0, "function not found")
@@ -27,14 +103,24 @@ func rulePoolReset(c *Ctx, fns []*ssa.Function) {
 		c.sawFn(name)
 		allInstrs(fn, func(in ssa.Instruction) {
 			get, ok := in.(*ssa.Call)
-			if !ok || !isPoolMethod(&get.Call, "Get") {
+			if !ok {
+				return
+			}
+			viaGetter := false
+			if cal := staticCallee(&get.Call); cal != nil && getters[origin(cal)] {
+				viaGetter = true
+			}
+			if !viaGetter && !isPoolMethod(&get.Call, "Get") {
 				return
 			}
 			key := name + ":pool.Get"
 			// the object: typeassert of the result
 			var obj ssa.Value
+			if viaGetter {
+				obj = get // the helper's result: already type-asserted and reset
+			}
 			for _, r := range referrersOf(get) {
-				if ta, ok := r.(*ssa.TypeAssert); ok && !ta.CommaOk {
+				if ta, ok := r.(*ssa.TypeAssert); ok && !ta.CommaOk && !viaGetter {
 					obj = ta
 				}
 			}
@@ -115,7 +201,7 @@ func rulePoolReset(c *Ctx, fns []*ssa.Function) {
 				u, ok := uses[in]
 				return ok && u != "Reset" && u != "Put"
 			}, isReset)
-			if found {
+			if found && !viaGetter {
 				problems = append(problems, "pooled object is used before Reset on some path ("+wit+")")
 			}
 			if len(problems) == 0 {
